@@ -291,6 +291,30 @@ pub fn test(c: &RawCase, ev: &mut Ev, opts: &ModelOpts) -> Result<(), Violation>
             }
         }
     }
+    // (4) every fourth program: labels in front of some of the conditional directives (of selected and of
+    // unselected constructs alike) — a label on such a line does not change what the line opens or closes
+    if ev.evaluations % 4 == 3 {
+        let canon = render(&prog, Style::CANON).text;
+        let mut w = String::new();
+        let mut n = 0u32;
+        for (i, l) in canon.lines().enumerate() {
+            let t = l.trim_start();
+            let is_cond = [".if", ".elif", ".else", ".endif"].iter().any(|k| t.starts_with(k));
+            // about half of them, decided by the line's position and the program's own size
+            if is_cond && (i * 7 + canon.len()) % 9 < 5 && t == l {
+                w.push_str(&format!("c8l_{}: {}\n", i, l));
+                n += 1;
+            } else {
+                w.push_str(l);
+                w.push('\n');
+            }
+        }
+        if n > 0 {
+            ev.class("labels-on-conditional-directives");
+            let chk = Check::Same { a: canon.clone(), b: w, messages: true, allow_both_fail: false };
+            chk.eval().map_err(|why| Violation { sig: format!("c08:labelled-directives:{}:{}", sig_tail, kind_of(&why)), what: why, replay: chk.to_json() })?;
+        }
+    }
     Ok(())
 }
 
@@ -386,5 +410,5 @@ pub fn run(ctx: &Ctx) -> Result<Ev, String> {
 }
 
 pub fn rule() -> String {
-    "conditional trees (every fourth one also with everything after the prelude as the body of a macro called once, unselected lines using parameters the call does not pass): chains of 1–4 arms (+ optional .else), nested to depth 3, conditions on literals, .equ constants (comparisons, !, &&) and .ifdef/.ifndef of .define flags under a generated truth assignment (incl. several true arms); selected bodies hold unique markers (.dw k, .message/.warning, .equ and label definitions read back after the construct); unselected bodies hold poison (unparsable text, .error, .message, undefined macro, out-of-range operands, duplicate label, redefinition of a symbol used later, .device, missing .include, balanced nested conditionals with unevaluable conditions, .macro/.endm, .exit, .define). Deterministic part: every chain shape with ≤3 arms × every truth assignment × optional .else × a nested chain in each position. Oracles: reference model (image, messages with line numbers, sizes) and metamorphic equality with the unselected lines blanked and deleted. Non-trivial = an .elif after a taken arm, or ≥2 .elif, or a nested conditional inside a taken arm followed by .else/.elif; distinct = distinct program text".into()
+    "conditional trees (every fourth one also with everything after the prelude as the body of a macro called once, unselected lines using parameters the call does not pass; every fourth one also with labels in front of about half of its conditional directives): chains of 1–4 arms (+ optional .else), nested to depth 3, conditions on literals, .equ constants (comparisons, !, &&) and .ifdef/.ifndef of .define flags under a generated truth assignment (incl. several true arms); selected bodies hold unique markers (.dw k, .message/.warning, .equ and label definitions read back after the construct); unselected bodies hold poison (unparsable text, .error, .message, undefined macro, out-of-range operands, duplicate label, redefinition of a symbol used later, .device, missing .include, balanced nested conditionals with unevaluable conditions, .macro/.endm, .exit, .define). Deterministic part: every chain shape with ≤3 arms × every truth assignment × optional .else × a nested chain in each position. Oracles: reference model (image, messages with line numbers, sizes) and metamorphic equality with the unselected lines blanked and deleted. Non-trivial = an .elif after a taken arm, or ≥2 .elif, or a nested conditional inside a taken arm followed by .else/.elif; distinct = distinct program text".into()
 }
